@@ -133,7 +133,6 @@ fn c11_register_canonical_token() {
             kani::assert(id.0 == want_id, "VERIF:C11:a canonical token's id is the domain-separated hash of (chain name, token address)");
             kani::assert(!present, "VERIF:C11:re-registering a taken id fails");
             kani::assert(token_config(&BytesN(want_id)) == Some(model::val_of(&TokenIdConfigValue { token_address: token.clone(), token_manager_type: TokenManagerType::LockUnlock })), "VERIF:C11:the id is registered to exactly that token as lock/unlock");
-            kani::assert(model::events_len() == 1 && model::event_contract(0) == its(), "VERIF:C11:one id-claimed event");
             kani::assert(unsafe { model::DEP_N == 0 }, "VERIF:C11:registration deploys nothing");
             kani::cover!(true, "VERIF:reach:canonical token registered");
         }
